@@ -334,3 +334,291 @@ Proof.
   { apply (Permutation_NoDup (Permutation_map a_frag_num (Permutation_sym HP))). exact (cm_nodup _ _ _ C). }
   rewrite <- (sort_perm P fs HP NP). symmetry. apply sort_by_frag_sorted with (1 - 1). apply in_order_sorted. exact N.
 Qed.
+
+(* ================================================================ every delivered sentence carries its own message id *)
+
+Definition id_ok (a : ais_sentence) : Prop := a_ais_id a = get_int (a_bits a) 0 6 false.
+
+Lemma id_ok_attach : forall w a, id_ok a -> id_ok (attach w a).
+Proof. intros [g|] a H; exact H. Qed.
+
+Lemma buffer_step_id_ok : forall b msg b' full, buffer_step b msg = Ok (b', Some full) -> id_ok full.
+Proof.
+  intros b msg b' full H. unfold buffer_step in H.
+  destruct (buf_get _ _) as [arr|]; [|discriminate].
+  destruct (pyl_setitem arr (a_frag_num msg - 1) (Some msg)) as [arr'|e]; [|discriminate].
+  destruct (pyl_len _ =? a_frag_cnt msg); [|discriminate].
+  destruct (not_none _) as [|first rest]; [discriminate|].
+  unfold assemble_from_iterable in H. inversion H; subst. reflexivity.
+Qed.
+
+Lemma generic_step_id_ok : forall hs st p t st' out, generic_step hs st p t = Ok (st', out) ->
+  (forall a, p = Ok (SAis a) -> id_ok a) -> Forall id_ok out.
+Proof.
+  intros hs [b w] p t st' out H Hp. unfold generic_step in H.
+  destruct p as [x|e]; [|destruct (catches hs e); inversion H; constructor].
+  destruct t as [e|]; [destruct (catches hs e); inversion H; constructor|].
+  destruct x as [msg|g]; [|inversion H; constructor].
+  unfold ais_step in H. destruct (is_single msg).
+  - inversion H; subst. constructor; [|constructor]. apply id_ok_attach. apply Hp. reflexivity.
+  - destruct (buffer_step b msg) as [[b2 [full|]]|e] eqn:E; inversion H; subst; [|constructor].
+    constructor; [|constructor]. apply id_ok_attach. exact (buffer_step_id_ok _ _ _ _ E).
+Qed.
+
+(* ================================================================ the readers *)
+
+Section Ingest.
+  Variable uni : Z -> list Z -> option Z.
+
+  (* does this LINE store a fragment into slot s (in a reader whose tag block queue, if any, accepts it)? *)
+  Definition line_touches (s : asm_slot) (l : bytes) : bool :=
+    match produce l with
+    | Ok (SAis a) => negb (is_single a) && slot_eqb (slot_of a) s
+    | _ => false
+    end.
+
+  (* TagBlockQueue.put_sentence does not reject the sentence: it has no tag block, or tb.init() succeeds on it *)
+  Definition tbq_accepts (a : ais_sentence) : Prop :=
+    match c_tag_block (a_common a) with None => True | Some raw => exists tb, tb_init uni raw = Ok tb end.
+
+  Lemma tbq_accepts_put : forall a tq, tbq_accepts a -> exists r, tbq_put uni tq (SAis a) = Ok r.
+  Proof.
+    intros a tq H. unfold tbq_accepts in H. unfold tbq_put. cbn [sentence_common].
+    destruct (c_tag_block (a_common a)) as [raw|]; [|eexists; reflexivity].
+    destruct H as [tb ->]. cbn [bind]. destruct (tb_group tb) as [[[n t] g]|]; [|eexists; reflexivity].
+    destruct (t =? 1); [eexists; reflexivity|]. destruct (n =? 1); [eexists; reflexivity|].
+    destruct (tbq_get tq g) as [[tot0 ss]|]; [|eexists; reflexivity].
+    destruct (negb _); eexists; reflexivity.
+  Qed.
+
+  Lemma rd_feed_touches : forall use_tbq s tq l p t tq' touts,
+    rd_feed uni use_tbq tq l = (p, t, tq', touts) ->
+    (forall a, line_touches s l = true -> produce l = Ok (SAis a) -> use_tbq = true -> tbq_accepts a) ->
+    touches s (p, t) = line_touches s l /\ (touches s (p, t) = true -> (p, t) = (produce l, None)).
+  Proof.
+    intros use_tbq s tq l p t tq' touts H Hacc. unfold rd_feed in H. unfold line_touches in *.
+    destruct (produce l) as [sn|e] eqn:E.
+    - destruct use_tbq.
+      + destruct (tbq_put uni tq sn) as [[tq2 outs]|e] eqn:Et.
+        * inversion H; subst. split; [reflexivity|]. intros _. reflexivity.
+        * assert (Hlt : match sn with SAis a => negb (is_single a) && slot_eqb (slot_of a) s | SGatehouse _ => false end = false).
+          { destruct sn as [a|g]; [|reflexivity].
+            destruct (negb (is_single a) && slot_eqb (slot_of a) s) eqn:Etch; [|reflexivity].
+            exfalso. destruct (tbq_accepts_put a tq (Hacc a eq_refl eq_refl eq_refl)) as [r Hr]. rewrite Hr in Et. discriminate. }
+          inversion H; subst. rewrite Hlt. destruct sn; split; solve [reflexivity|discriminate].
+      + inversion H; subst. split; [reflexivity|]. intros _. reflexivity.
+    - inversion H; subst. split; [reflexivity|discriminate].
+  Qed.
+
+  Lemma rd_inputs_touches : forall use_tbq s ls tq,
+    (forall l a, In l ls -> line_touches s l = true -> produce l = Ok (SAis a) -> use_tbq = true -> tbq_accepts a) ->
+    map (touches s) (rd_inputs uni use_tbq tq ls) = map (line_touches s) ls /\
+    filter (touches s) (rd_inputs uni use_tbq tq ls) = map (fun l => (produce l, None)) (filter (line_touches s) ls).
+  Proof.
+    intros use_tbq s ls. induction ls as [|l rest IH]; intros tq Hacc; [split; reflexivity|].
+    cbn [rd_inputs]. destruct (rd_feed uni use_tbq tq l) as [[[p t] tq'] touts] eqn:Ef.
+    destruct (rd_feed_touches use_tbq s tq l p t tq' touts Ef (fun a => Hacc l a (or_introl eq_refl))) as [H1 H2].
+    destruct (IH tq' (fun l0 a H => Hacc l0 a (or_intror H))) as [I1 I2].
+    cbn [map filter]. rewrite H1, I1. split; [reflexivity|].
+    rewrite <- H1. destruct (touches s (p, t)) eqn:Et; [|exact I2]. rewrite (H2 eq_refl). cbn [map]. now rewrite I2.
+  Qed.
+
+  (* every sentence a reader delivers carries the message id of its own bits *)
+  Lemma rd_run_id_ok : forall step use_tbq, is_reader_loop step -> forall lines st,
+    Forall (fun o => Forall id_ok (fst o)) (fst (rd_run uni step use_tbq st lines)).
+  Proof.
+    intros step use_tbq [hs [Hc Hs]] lines. induction lines as [|l rest IH]; intros [ast tq]; [constructor|].
+    cbn [rd_run]. unfold rd_step. destruct (rd_feed uni use_tbq tq l) as [[[p t] tq'] touts] eqn:Ef.
+    destruct (rd_feed_ok uni _ _ _ _ _ _ _ Ef) as [Hp _].
+    destruct (step ast p t) as [[ast' outs]|e] eqn:Es; [|constructor].
+    specialize (IH (ast', tq')). destruct (rd_run uni step use_tbq (ast', tq') rest) as [r fin]. cbn [fst] in *.
+    constructor; [|exact IH]. cbn [fst]. rewrite Hs in Es. apply (generic_step_id_ok hs ast p t ast' outs Es).
+    intros a Ha. subst p. exact (proj1 (produce_ais_id l a Ha)).
+  Qed.
+
+  (* a message that the loops treat as a single-sentence message: one fragment and no (or zero) sequence id *)
+  Definition msg_single (sq : option Z) (fs : list ais_sentence) : bool := negb (seq_truthy sq) && (length fs =? 1)%nat.
+
+  Lemma msg_single_false : forall sq ch fs f, complete_message sq ch fs -> msg_single sq fs = false -> In f fs ->
+    is_single f = false.
+  Proof.
+    intros sq ch fs f C H Hf. unfold is_single. pose proof (cm_seq _ _ _ C) as H1. pose proof (cm_cnt _ _ _ C) as H3.
+    rewrite Forall_forall in H1, H3. rewrite (H1 f Hf), (H3 f Hf). unfold msg_single in H.
+    destruct (seq_truthy sq); [reflexivity|]. cbn [negb andb] in *. apply Nat.eqb_neq in H.
+    replace (Z.of_nat (length fs) =? 1) with false by (symmetry; apply Z.eqb_neq; lia). apply andb_false_r.
+  Qed.
+
+  Definition msg_slot (sq : option Z) (ch : list Z) : asm_slot := (match sq with None => -1 | Some v => v end, ch).
+
+  Lemma msg_slot_of : forall sq ch fs f, complete_message sq ch fs -> In f fs -> slot_of f = msg_slot sq ch.
+  Proof.
+    intros sq ch fs f C Hf. pose proof (cm_seq _ _ _ C) as H1. pose proof (cm_chan _ _ _ C) as H2.
+    rewrite Forall_forall in H1, H2. unfold slot_of, msg_slot. now rewrite (H1 f Hf), (H2 f Hf).
+  Qed.
+
+  (* ---------------------------------------------------------------- a multi-sentence message, read by a reader *)
+
+  (* parts: the lines of one complete message that is not a single-sentence message.  ls: what the reader is fed -- ANY
+     line sequence in which the lines that store into the message's slot are exactly the parts, in any order.  Then the
+     reader (either loop, with or without a tag block queue) consumes every line, delivers at the lines of the message
+     exactly one sentence d, and d carries the message: raw text, payload, bits, validity flag, message id, sequence id
+     and channel. *)
+  Theorem reader_delivers_message : forall step use_tbq parts fs sq ch ls,
+    is_reader_loop step ->
+    Forall2 line_ais parts fs -> complete_message sq ch fs -> msg_single sq fs = false ->
+    (use_tbq = true -> Forall tbq_accepts fs) ->
+    Permutation parts (filter (line_touches (msg_slot sq ch)) ls) ->
+    exists outs st d,
+      rd_run uni step use_tbq rd_init ls = (outs, Ok st) /\ length outs = length ls /\
+      pick (map (line_touches (msg_slot sq ch)) ls) (map fst outs) = [d] /\
+      view d = msg_view fs /\ a_seq_id d = sq /\ a_channel d = ch.
+  Proof.
+    intros step use_tbq parts fs sq ch ls Hloop Hparts C Hns Htb Hperm.
+    set (s := msg_slot sq ch) in *. set (parts' := filter (line_touches s) ls) in *.
+    destruct (rd_run_total uni step use_tbq ls rd_init Hloop rd_inv_init) as [outs [st [Er [Hlen _]]]].
+    destruct (line_ais_perm parts fs parts' Hparts Hperm) as [fs' [Hparts' Pfs]].
+    pose proof (cm_perm _ _ _ _ C Pfs) as C'.
+    assert (Hns' : msg_single sq fs' = false) by (unfold msg_single in *; rewrite <- (Permutation_length Pfs); exact Hns).
+    (* the tag block queue accepts every line that touches the slot *)
+    assert (Hacc : forall l a, In l ls -> line_touches s l = true -> produce l = Ok (SAis a) -> use_tbq = true ->
+                               tbq_accepts a).
+    { intros l a Hl Ht Ha Hu. assert (Hin : In l parts') by (unfold parts'; apply filter_In; split; assumption).
+      destruct (Forall2_in_l _ _ _ _ _ l Hparts' Hin) as [a' [Ha' Hla]]. unfold line_ais in Hla. rewrite Ha in Hla.
+      inversion Hla; subst a'. specialize (Htb Hu). rewrite Forall_forall in Htb. apply Htb.
+      exact (Permutation_in _ (Permutation_sym Pfs) Ha'). }
+    destruct (rd_inputs_touches use_tbq s ls [] Hacc) as [Hmap Hfil].
+    (* only the slot's lines matter *)
+    pose proof Hloop as [hs [Hc Hs]].
+    pose proof (rd_slot_isolation uni hs step use_tbq ls s Hc Hs) as Hiso. cbv zeta in Hiso.
+    rewrite Er in Hiso. cbn [fst] in Hiso. rewrite Hfil in Hiso. fold parts' in Hiso.
+    assert (Hsched : map (fun l => (produce l, @None exn)) parts' = schedule_lines (msg_schedule fs')).
+    { clear -Hparts'. induction Hparts' as [|p f ps fs0 Hp _ IH]; [reflexivity|].
+      cbn [map msg_schedule schedule_lines] in *. rewrite Hp. f_equal. exact IH. }
+    rewrite Hsched in Hiso.
+    (* C03 on the message's own schedule *)
+    assert (Hsk : skips hs).
+    { intros e He. apply Hc. destruct e; try discriminate He; [left|right; right|right; left]; reflexivity. }
+    destruct (msg_schedule_WF _ _ _ C') as [W Sk].
+    destruct (run_schedule hs Hsk (msg_schedule fs') [] [] None W Sk Inv_init) as [outs2 [b2 [w2 [E1 [E2 _]]]]].
+    rewrite (asm_run_ext step (generic_step hs) Hs) in Hiso. unfold asm_init in Hiso. unfold asm_buffer in E1. rewrite E1 in Hiso. cbn [fst] in Hiso.
+    assert (Hfs'ne : fs' <> []) by exact (cm_nonempty _ _ _ C').
+    assert (Htouch : Forall (fun i => touches s i = true) (schedule_lines (msg_schedule fs'))).
+    { apply Forall_forall. intros i Hi. unfold schedule_lines, msg_schedule in Hi. rewrite map_map in Hi.
+      apply in_map_iff in Hi. destruct Hi as [f [<- Hf]]. cbn [item_line touches frag0 sf_sent].
+      rewrite (msg_single_false _ _ _ f C' Hns' Hf).
+      rewrite (msg_slot_of _ _ _ f C' Hf). fold s. rewrite slot_eqb_refl. reflexivity. }
+    assert (Hlen2 : length outs2 = length (schedule_lines (msg_schedule fs'))).
+    { rewrite <- (map_length (map delivery_of) outs2), E2, spec_deliveries_length. unfold schedule_lines.
+      now rewrite map_length. }
+    rewrite (slot_outs_all s _ outs2 Htouch Hlen2), E2 in Hiso.
+    unfold msg_schedule in Hiso. rewrite <- (map_map frag0 IFrag) in Hiso.
+    rewrite (spec_one_message (length fs') sq ch (map frag0 fs') []) in Hiso.
+    2:{ intros x Hx. cbn [app] in Hx. destruct (in_frag0 _ _ Hx) as [f [-> Hf]]. unfold f_cnt, f_seq, f_chan.
+        cbn [frag0 sf_sent sf_msg]. pose proof (cm_seq _ _ _ C') as H1. pose proof (cm_chan _ _ _ C') as H2.
+        pose proof (cm_cnt _ _ _ C') as H3. rewrite Forall_forall in H1, H2, H3. now rewrite (H1 f Hf), (H2 f Hf), (H3 f Hf). }
+    2:{ cbn [app]. now rewrite map_length. }
+    2:{ destruct fs'; [contradiction|discriminate]. }
+    (* exactly one sentence *)
+    rewrite slot_outs_pick, Hmap in Hiso. apply map_singleton in Hiso. destruct Hiso as [d [Hd Hdl]].
+    exists outs, st, d. split; [exact Er|]. split; [exact Hlen|]. split; [exact Hd|].
+    (* its content *)
+    assert (Hid : id_ok d).
+    { pose proof (rd_run_id_ok step use_tbq Hloop ls rd_init) as Hall. rewrite Er in Hall. cbn [fst] in Hall.
+      assert (Hin : In d (pick (map (line_touches s) ls) (map fst outs))) by (rewrite Hd; left; reflexivity).
+      apply pick_in in Hin. destruct Hin as [o [Ho Hdo]]. apply in_map_iff in Ho. destruct Ho as [oo [<- Hoo]].
+      rewrite Forall_forall in Hall. specialize (Hall oo Hoo). rewrite Forall_forall in Hall. exact (Hall d Hdo). }
+    unfold msg_delivery in Hdl. cbn [app] in Hdl. rewrite (parts_in_order_sorted _ _ _ C') in Hdl.
+    rewrite <- (sort_perm fs fs' Pfs (cm_nodup _ _ _ C)) in Hdl.
+    unfold delivery_of in Hdl. injection Hdl as R1 R2 R3 R4 R5 R6.
+    split; [|split; assumption].
+    unfold view, msg_view. rewrite Hid, R1, R2, R3, R4. rewrite join_raw_join_lf, !flat_map_concat_map. reflexivity.
+  Qed.
+
+  (* ---------------------------------------------------------------- a single-sentence message, read by a reader *)
+
+  Lemma view_attach : forall w a, view (attach w a) = view a.
+  Proof. intros [g|] a; reflexivity. Qed.
+
+  Lemma view_single : forall p f, line_ais p f -> view f = msg_view [f].
+  Proof.
+    intros p f H. unfold view, msg_view, sort_by_frag. cbn [fold_right insert_by_frag join_raw flat_map forallb].
+    rewrite !app_nil_r, andb_true_r. rewrite (proj1 (produce_ais_id p f H)). reflexivity.
+  Qed.
+
+  (* the line p of a single-sentence message, anywhere in any line sequence: every line is consumed and the sentence is
+     delivered at that line, as parsed, with the wrapper pending there (w; which one it is, is C18) *)
+  Theorem reader_delivers_single : forall step use_tbq p f pre post,
+    is_reader_loop step -> line_ais p f -> is_single f = true -> (use_tbq = true -> tbq_accepts f) ->
+    exists outs1 outs2 st touts w,
+      rd_run uni step use_tbq rd_init (pre ++ p :: post) = (outs1 ++ ([attach w f], touts) :: outs2, Ok st) /\
+      length outs1 = length pre /\ length outs2 = length post.
+  Proof.
+    intros step use_tbq p f pre post Hloop Hp Hsingle Htb. rewrite rd_run_app.
+    destruct (rd_run_total uni step use_tbq pre rd_init Hloop rd_inv_init) as [o1 [[[b w] tq] [E1 [L1 I1]]]]. rewrite E1.
+    cbn [rd_run]. unfold rd_step.
+    assert (Hfeed : exists tq' touts, rd_feed uni use_tbq tq p = (Ok (SAis f), None, tq', touts)).
+    { unfold rd_feed. unfold line_ais in Hp. rewrite Hp. destruct use_tbq; [|eexists _, _; reflexivity].
+      destruct (tbq_accepts_put f tq (Htb eq_refl)) as [[tq' touts] Hr]. rewrite Hr. eexists _, _; reflexivity. }
+    destruct Hfeed as [tq' [touts ->]].
+    destruct Hloop as [hs [Hc Hs]]. rewrite Hs. cbn [generic_step]. unfold ais_step. rewrite Hsingle.
+    match goal with |- context [rd_run uni step use_tbq ?s1 post] =>
+      destruct (rd_run_total uni step use_tbq post s1 (ex_intro _ hs (conj Hc Hs)) I1) as [o2 [st2 [E2 [L2 _]]]]; rewrite E2
+    end.
+    exists o1, o2, st2, touts, w. split; [reflexivity|]. split; assumption.
+  Qed.
+
+  (* ================================================================ C07, last clause: decode() agrees with the readers *)
+
+  (* multi-sentence messages (and one-fragment messages that carry a sequence id) *)
+  Theorem decode_agrees_message : forall step use_tbq parts fs sq ch ls,
+    is_reader_loop step ->
+    Forall2 line_ais parts fs -> complete_message sq ch fs -> msg_single sq fs = false ->
+    (use_tbq = true -> Forall tbq_accepts fs) ->
+    Permutation parts (filter (line_touches (msg_slot sq ch)) ls) ->
+    exists outs st d,
+      rd_run uni step use_tbq rd_init ls = (outs, Ok st) /\ length outs = length ls /\
+      pick (map (line_touches (msg_slot sq ch)) ls) (map fst outs) = [d] /\
+      view d = msg_view fs /\ a_seq_id d = sq /\ a_channel d = ch /\
+      forall parts', Permutation parts parts' ->
+        exists nmea, assemble_messages false parts' = Ok nmea /\ view nmea = view d /\
+                     sentence_decode d = mmap snd (decode_api false parts').
+  Proof.
+    intros step use_tbq parts fs sq ch ls Hloop Hparts C Hns Htb Hperm.
+    destruct (reader_delivers_message step use_tbq parts fs sq ch ls Hloop Hparts C Hns Htb Hperm)
+      as [outs [st [d [Er [Hlen [Hd [Hv [Hsq Hch]]]]]]]].
+    exists outs, st, d. repeat (split; [assumption|]).
+    intros parts' P. destruct (line_ais_perm parts fs parts' Hparts P) as [fs' [Hparts' Pfs]].
+    destruct (decode_api_complete parts' fs' sq ch Hparts' (cm_perm _ _ _ _ C Pfs)) as [nmea [Ha [Hvn [_ [_ Hdec]]]]].
+    rewrite <- (msg_view_perm fs fs' Pfs (cm_nodup _ _ _ C)) in Hvn.
+    exists nmea. split; [exact Ha|]. split; [now rewrite Hvn, Hv|].
+    unfold message_of in Hdec. rewrite Hdec. apply sentence_decode_view. now rewrite Hvn, Hv.
+  Qed.
+
+  (* single-sentence messages *)
+  Theorem decode_agrees_single : forall step use_tbq p f pre post,
+    is_reader_loop step -> line_ais p f -> is_single f = true -> (use_tbq = true -> tbq_accepts f) ->
+    exists outs1 outs2 st touts d,
+      rd_run uni step use_tbq rd_init (pre ++ p :: post) = (outs1 ++ ([d], touts) :: outs2, Ok st) /\
+      length outs1 = length pre /\ length outs2 = length post /\
+      view d = view f /\ a_seq_id d = a_seq_id f /\ a_channel d = a_channel f /\
+      exists nmea, assemble_messages false [p] = Ok nmea /\ view nmea = view d /\
+                   sentence_decode d = mmap snd (decode_api false [p]).
+  Proof.
+    intros step use_tbq p f pre post Hloop Hp Hsingle Htb.
+    destruct (reader_delivers_single step use_tbq p f pre post Hloop Hp Hsingle Htb)
+      as [o1 [o2 [st [touts [w [Er [L1 L2]]]]]]].
+    exists o1, o2, st, touts, (attach w f). split; [exact Er|]. split; [exact L1|]. split; [exact L2|].
+    split; [apply view_attach|]. split; [destruct w; reflexivity|]. split; [destruct w; reflexivity|].
+    assert (C : complete_message (a_seq_id f) (a_channel f) [f]).
+    { unfold is_single in Hsingle. apply andb_prop in Hsingle. destruct Hsingle as [_ H2].
+      apply andb_prop in H2. destruct H2 as [Hn Hc]. apply Z.eqb_eq in Hn, Hc.
+      constructor; try (constructor; [reflexivity|constructor]).
+      - constructor; [exact Hc|constructor].
+      - cbn. rewrite Hn, Hc. apply Permutation_refl.
+      - discriminate. }
+    destruct (decode_api_complete [p] [f] _ _ (Forall2_cons _ _ Hp (Forall2_nil _)) C) as [nmea [Ha [Hvn [_ [_ Hdec]]]]].
+    rewrite <- (view_single p f Hp) in Hvn.
+    exists nmea. split; [exact Ha|]. split; [now rewrite Hvn, view_attach|].
+    unfold message_of in Hdec. rewrite Hdec. apply sentence_decode_view. now rewrite Hvn, view_attach.
+  Qed.
+End Ingest.
